@@ -69,18 +69,24 @@ impl<const BITS: usize, const LIMBS: usize> Uint<BITS, LIMBS> {
         let mut result = result.try_into().unwrap();
         #[cfg(feature = "recmo_uint_verif")]
         crate::verif_hooks::tap(Self::saturating_to::<u64>(&result));
+        #[cfg(feature = "recmo_uint_verif")]
+        crate::verif_hooks::hit(131);
 
         // Adjust result to get the exact value. At most one of these should happen, but
         // we loop regardless.
         loop {
             if let Some(value) = base.checked_pow(result) {
                 if value > self {
+                    #[cfg(feature = "recmo_uint_verif")]
+                    crate::verif_hooks::hit(132);
                     assert!(!result.is_zero());
                     result -= Self::ONE;
                     continue;
                 }
             } else {
                 // Overflow, so definitely larger than `value`
+                #[cfg(feature = "recmo_uint_verif")]
+                crate::verif_hooks::hit(133);
                 result -= Self::ONE;
             }
             break;
@@ -88,6 +94,8 @@ impl<const BITS: usize, const LIMBS: usize> Uint<BITS, LIMBS> {
         while let Some(trial) = result.checked_add(Self::ONE) {
             if let Some(value) = base.checked_pow(trial) {
                 if value <= self {
+                    #[cfg(feature = "recmo_uint_verif")]
+                    crate::verif_hooks::hit(134);
                     result = trial;
                     continue;
                 }
